@@ -1,6 +1,10 @@
 //! Engine binary `e_hist`: one module per property. See /verif/DESIGN.md.
 use vmon::report::parse_args;
 
+mod hist;
+mod snap;
+mod walker;
+
 mod c05;
 mod c06;
 mod c07;
